@@ -36,7 +36,7 @@ def tensor_spec(draw, max_order=4):
     op = draw(st.sampled_from([False, False, True]))
     rows = [draw(st.sampled_from([1, 2, 3, 3, 4, 4])) for _ in range(d)]
     cols = [draw(st.sampled_from([1, 2, 2, 3])) for _ in range(d)] if op else [1] * d
-    kind = draw(st.sampled_from(['gauss', 'gauss', 'lowrank', 'lowrank_noise', 'lowrank_noise', 'decay', 'decay', 'zero']))
+    kind = draw(st.sampled_from(['gauss', 'gauss', 'lowrank', 'lowrank_noise', 'lowrank_noise', 'decay', 'decay', 'zero', 'flat', 'flat']))
     return {'rows': rows, 'cols': cols, 'kind': kind, 'cplx': draw(st.booleans()), 'seed': draw(gen.SEED),
             'rank': draw(st.integers(1, 3)), 'noise_exp': draw(st.integers(-10, -1)), 'decay': draw(st.sampled_from([0.5, 0.1, 0.01])),
             'scale_exp': draw(st.sampled_from([0, 0, 0, -9, -14, 7]))}
@@ -67,6 +67,22 @@ def make_tensor(ts):
         x = np.zeros(shape, dtype=complex if ts['cplx'] else float)
         for j in range(6):
             x = x + ts['decay'] ** j * lowrank(1) / np.sqrt(np.prod(shape))
+    elif k == 'flat':
+        # exactly flat spectra: 0/1 tensors whose unfoldings are (partial) permutation matrices -- singular values tie bit-wise
+        # (identity, permutation, delta tensors); a cap then has to choose among equal values and still keep `cap` of them
+        n = int(np.prod(shape))
+        x = np.zeros(n, dtype=complex if ts['cplx'] else float)
+        perm = rng.permutation(n)
+        x[perm[: max(1, n // (2 if ts['rank'] == 1 else 1 + ts['rank']))]] = 1.0
+        x = x.reshape(shape)
+        if ts['rank'] == 3 and d >= 2:
+            # a genuine permutation / diagonal structure between the first mode and the rest
+            m0 = rows[0] * cols[0]
+            rest = n // m0
+            P = np.zeros((m0, rest))
+            P[np.arange(min(m0, rest)), rng.permutation(rest)[: min(m0, rest)]] = 1.0
+            x = np.transpose(P.reshape([rows[0], cols[0]] + [v for i in range(1, d) for v in (rows[i], cols[i])]),
+                             [2 * i for i in range(d)] + [2 * i + 1 for i in range(d)]).astype(x.dtype)
     else:
         x = np.zeros(shape, dtype=complex if ts['cplx'] else float)
     return x * 10.0 ** ts.get('scale_exp', 0)      # relative thresholds and the bounds are scale-invariant
